@@ -298,7 +298,13 @@ def r05_3(ctx):
                 seen.setdefault((key_new, key_old, old_cond, new_unc), set()).add(val)
             bad = []
             n = 0
+            expanded = []
             for (kn, ko, oc, nu), vals in seen.items():
+                # a path that did not look at one of the two conditions decides for both of its values
+                for oc_ in ([oc] if (oc is not None or ko is not True or kn is not True) else [True, False]):
+                    for nu_ in ([nu] if (nu is not None or ko is not True or kn is not True) else [True, False]):
+                        expanded.append(((kn, ko, oc_, nu_), vals))
+            for (kn, ko, oc, nu), vals in expanded:
                 for val in vals:
                     n += 1
                     if kn is False:
